@@ -116,13 +116,66 @@ func genC13(t *rapid.T) C13Case {
 		}
 	}
 	// the base history may contain panic taps itself (half of the cases): several panics with state changes between them
-	steps := genHistory(t, d, HistOpts{MaxLen: 40, StateBias: 30, BurstMax: 2, NoPanic: rapid.Bool().Draw(t, "basePanicFree"), MidiIn: true})
+	steps := genHistory(t, d, HistOpts{MaxLen: 40, StateBias: 30, BurstMax: 2, NoPanic: rapid.Bool().Draw(t, "basePanicFree"), MidiIn: true,
+		// a third of the histories press action keys with no regard for what is held (a third action while a pair is down,
+		// two pairs at once): the comparison is device against device, the reference model is not consulted for these
+		AnyAction: rapid.IntRange(0, 2).Draw(t, "anyAction") == 0})
 	// panic is injected at every point of the history - also while both keys of an up/down pair are held (C04 excludes a
 	// third action there; C13 quantifies over every point, and panic is the one action that must always get through);
 	// half of the cases aim at such a point when the history has one
 	at := rapid.IntRange(0, len(steps)).Draw(t, "at")
 	if pairPoints := pairHeldPoints(d, steps); len(pairPoints) > 0 && rapid.Bool().Draw(t, "atPairHeld") {
 		at = pairPoints[rapid.IntRange(0, len(pairPoints)-1).Draw(t, "atPair")]
+	}
+	// A pair can be down without its reset having happened: with one key of pair X held, both keys of a pair Y that the device
+	// looks at first (mapping, octave, semitone, channel is its order) are pressed; X's second key, pressed now, only repeats
+	// Y's reset; Y is let go. Both keys of X are down, X was never reset - and panic, pressed now, has to go to the channel (and
+	// leave the octave ...) the device is on, not to a neutral one. Appended to a tenth of the histories.
+	if rapid.IntRange(0, 9).Draw(t, "stalePair") == 0 {
+		codeOf := map[string]uint16{}
+		for _, a := range d.Actions {
+			codeOf[a.Action] = a.Code
+		}
+		order := [][2]string{{"mapping_up", "mapping_down"}, {"octave_up", "octave_down"}, {"semitone_up", "semitone_down"}, {"channel_up", "channel_down"}}
+		var have [][2]string
+		for _, pr := range order {
+			if _, ok := codeOf[pr[0]]; ok {
+				if _, ok2 := codeOf[pr[1]]; ok2 {
+					have = append(have, pr)
+				}
+			}
+		}
+		if len(have) >= 2 {
+			yi := rapid.IntRange(0, len(have)-2).Draw(t, "pairY")
+			xi := rapid.IntRange(yi+1, len(have)-1).Draw(t, "pairX")
+			y, x := have[yi], have[xi]
+			xFirst := rapid.IntRange(0, 1).Draw(t, "xFirst")
+			// every key is let go first
+			down := map[uint16]Step{}
+			for _, st := range steps {
+				if st.T == "key" {
+					if st.Val == 1 {
+						down[st.Code] = st
+					} else if st.Val == 0 {
+						delete(down, st.Code)
+					}
+				}
+			}
+			var held []uint16
+			for c0 := range down {
+				held = append(held, c0)
+			}
+			sort.Slice(held, func(i, j int) bool { return held[i] < held[j] })
+			for _, c0 := range held {
+				st := down[c0]
+				st.Val = 0
+				steps = append(steps, st)
+			}
+			k := func(name string, val int32) Step { return Step{T: "key", Code: codeOf[name], Val: val} }
+			steps = append(steps, k(x[xFirst], 1), k(x[xFirst], 0), k(x[xFirst], 1), // X's first key: two steps away from neutral, held
+				k(y[0], 1), k(y[1], 1), k(x[1-xFirst], 1), k(y[1], 0), k(y[0], 0))
+			at = len(steps)
+		}
 	}
 	hold := 0
 	if rapid.IntRange(0, 3).Draw(t, "holdPanic") == 0 {
